@@ -2,10 +2,11 @@ package main
 
 import (
 	"fmt"
-	"sort"
 	"math"
+	"sort"
 	"strconv"
 	"strings"
+	"unicode/utf16"
 
 	"github.com/robertkrimen/otto"
 	"ottoverif/h"
@@ -29,8 +30,13 @@ var reviverSrc = []string{
 
 func implC11(line string) string {
 	f := strings.Fields(line)
-	b := vmPool.Get().(*vmBox)
-	defer vmPool.Put(b)
+	env := 0
+	if last := f[len(f)-1]; last == "e1" || last == "e2" {
+		env = int(last[1] - '0')
+		f = f[:len(f)-1]
+	}
+	b := vmPools[env].Get().(*vmBox)
+	defer vmPools[env].Put(b)
 	switch f[0] {
 	case "parse":
 		if len(f) == 3 {
@@ -139,6 +145,32 @@ func implStr(b *vmBox, vt, rt, st string) string {
 	case rt[0] == 'f':
 		n, _ := strconv.Atoi(rt[1:])
 		repl = b.repl[n]
+	case rt[0] == 'G':
+		// the same list as a Go []interface{} handed over through the bridge
+		var list []interface{}
+		r := &reader{b: b, s: rt, i: 1}
+		for idx := 0; r.s[r.i] != ']'; idx++ {
+			switch r.s[r.i] {
+			case 'Z':
+				r.i++
+				if idx%2 == 0 {
+					list = append(list, true)
+				} else {
+					list = append(list, nil)
+				}
+			case 'D':
+				r.i++
+				list = append(list, r.f64())
+			default:
+				r.i++
+				list = append(list, string(utf16.Decode(r.units())))
+			}
+		}
+		gv, err := b.vm.ToValue(list)
+		if err != nil {
+			panic(err)
+		}
+		repl = gv
 	case rt[0] == 'L':
 		o, err := b.vm.Object(`[]`)
 		if err != nil {
@@ -161,7 +193,9 @@ func implStr(b *vmBox, vt, rt, st string) string {
 			} else {
 				it = r.value()
 			}
-			o.Set(strconv.Itoa(idx), it)
+			if _, err := b.define.Call(otto.UndefinedValue(), o.Value(), strconv.Itoa(idx), it); err != nil {
+				panic(err)
+			}
 		}
 		repl = o.Value()
 	}
@@ -535,6 +569,26 @@ func (g *gen) replTok() string {
 		return fmt.Sprintf("f%d", r.Intn(len(replSrc)))
 	}
 	var sb strings.Builder
+	if r.Chance(25) {
+		// a bridged Go slice as the replacer list
+		sb.WriteString("G")
+		for n := r.Intn(6); n > 0; n-- {
+			switch r.Intn(8) {
+			case 0:
+				sb.WriteString("Z")
+			case 1:
+				sb.WriteString(f64Tok([]float64{0, 1, 10, 4.5, -1}[r.Intn(5)]))
+			default:
+				k := keyPool[r.Intn(len(keyPool))]
+				if !wellFormed(k) {
+					k = keyPool[0]
+				}
+				sb.WriteString("S" + unitsHex(k) + ".")
+			}
+		}
+		sb.WriteString("]")
+		return sb.String()
+	}
 	sb.WriteString("L")
 	for n := r.Intn(6); n > 0; n-- {
 		switch r.Intn(10) {
@@ -554,7 +608,33 @@ func (g *gen) replTok() string {
 	return sb.String()
 }
 
-var spaceStrs = [][]uint16{{}, {' '}, {'\t'}, {' ', ' '}, {'a', 'b'}, asciiUnits("0123456789"), asciiUnits("0123456789a"), asciiUnits("            "), {0xe9, 0xe9, 0xe9, 0xe9, 0xe9}, {0xe9, 0xe9, 0xe9, 0xe9, 0xe9, 0xe9, 0xe9}, {' ', ' ', ' ', ' ', ' ', ' ', ' ', ' ', ' ', 0xe9}, {' ', ' ', ' ', ' ', ' ', ' ', ' ', ' ', ' ', ' ', 0xe9}, {0xd83d, 0xde00, 0xd83d, 0xde00, 0xd83d, 0xde00}, {0x4e2d, 0x4e2d, 0x4e2d, ' '}, {0xd800}, {'\n', ' '}, {0xa0}}
+var spaceStrs = [][]uint16{{}, {' '}, {'\t'}, {' ', ' '}, {'a', 'b'}, asciiUnits("0123456789"), asciiUnits("0123456789a"), asciiUnits("            "), {0xe9, 0xe9, 0xe9, 0xe9, 0xe9}, {0xe9, 0xe9, 0xe9, 0xe9, 0xe9, 0xe9, 0xe9}, {' ', ' ', ' ', ' ', ' ', ' ', ' ', ' ', ' ', 0xe9}, {' ', ' ', ' ', ' ', ' ', ' ', ' ', ' ', ' ', ' ', 0xe9}, {0xd83d, 0xde00, 0xd83d, 0xde00, 0xd83d, 0xde00}, emoji(5), emoji(6), emoji(7), append([]uint16{' '}, emoji(5)...), append([]uint16{' ', ' '}, emoji(5)...), append(emoji(5), ' ', ' '), append([]uint16{' ', ' ', ' ', ' '}, emoji(4)...), append([]uint16{' ', ' ', ' '}, emoji(4)...), append(emoji(4), 0xe9, 0xe9, 0xe9), {0x4e2d, 0x4e2d, 0x4e2d, ' '}, {0xd800}, {'\n', ' '}, {0xa0}}
+
+func emoji(n int) []uint16 {
+	var u []uint16
+	for i := 0; i < n; i++ {
+		u = append(u, 0xd83d, uint16(0xde00+i))
+	}
+	return u
+}
+
+// gapStr is a random gap of 8..14 code units mixing white space, BMP and astral characters, so that the
+// cut after 10 units falls before, inside and after surrogate pairs.
+func (g *gen) gapStr() []uint16 {
+	r := g.r
+	var u []uint16
+	for n := 8 + r.Intn(7); len(u) < n; {
+		switch r.Intn(4) {
+		case 0:
+			u = append(u, ' ')
+		case 1:
+			u = append(u, []uint16{'\t', 0xe9, 0x4e2d, 'x'}[r.Intn(4)])
+		default:
+			u = append(u, 0xd83d, uint16(0xde00+r.Intn(64)))
+		}
+	}
+	return u
+}
 
 func (g *gen) spaceTok() string {
 	r := g.r
@@ -569,6 +649,9 @@ func (g *gen) spaceTok() string {
 		return f64Tok(f)
 	case 6, 7, 8:
 		s := spaceStrs[r.Intn(len(spaceStrs))]
+		if r.Chance(35) {
+			s = g.gapStr()
+		}
 		if r.Chance(20) {
 			return "BS" + unitsHex(s) + "."
 		}
@@ -610,6 +693,43 @@ func genC11(c *h.Ctx) {
 	}
 	for i := 0; i < c.N(2500, 120000); i++ {
 		c.Add(fmt.Sprintf("parse %s v%d", tt(gc.jsonText(3)), c.Rng.Intn(len(reviverSrc))), "revive:random")
+	}
+	// runtimes whose Object.prototype intercepts [[Put]] of "a" and ""
+	for _, s := range []string{`{"a":1}`, `{"a":1,"b":2}`, `{"b":{"a":[1,{"a":2}]}}`, `[{"a":1}]`, `{"":1,"c":2}`, `{"b":1}`, `[1,2]`, `1`, `{"a":1,"a":2,"b":3}`} {
+		for _, e := range []string{"e1", "e2"} {
+			c.Add("parse "+tt(goUnits(s))+" "+e, "env:fixed")
+			for id := range reviverSrc {
+				c.Add(fmt.Sprintf("parse %s v%d %s", tt(goUnits(s)), id, e), "env:fixed")
+			}
+		}
+	}
+	for i := 0; i < c.N(1200, 60000); i++ {
+		e := []string{"e1", "e2"}[c.Rng.Intn(2)]
+		switch c.Rng.Intn(3) {
+		case 0:
+			c.Add("parse "+tt(gc.jsonText(3))+" "+e, "env:parse")
+		case 1:
+			c.Add(fmt.Sprintf("parse %s v%d %s", tt(gc.jsonText(3)), c.Rng.Intn(len(reviverSrc)), e), "env:revive")
+		default:
+			var sb strings.Builder
+			g.svTok(3, 0, &sb)
+			rt := "-"
+			if c.Rng.Chance(40) {
+				rt = fmt.Sprintf("f%d", c.Rng.Intn(len(replSrc)))
+			}
+			c.Add("str "+sb.String()+" "+rt+" "+g.spaceTok()+" "+e, "env:str")
+		}
+	}
+	// the cut of a string gap after 10 code units: before, inside and after surrogate pairs, as a
+	// primitive and as a String object
+	for _, s := range spaceStrs {
+		for _, v := range []string{"AD3ff0000000000000]", "O0061.AN]}"} {
+			c.Add("str "+v+" - S"+unitsHex(s)+".", "str:gap")
+			c.Add("str "+v+" - BS"+unitsHex(s)+".", "str:gap")
+		}
+	}
+	for i := 0; i < c.N(300, 5000); i++ {
+		c.Add("str AD3ff0000000000000AT]] - S"+unitsHex(g.gapStr())+".", "str:gap")
 	}
 	// every single code unit class inside a string, raw and escaped
 	for _, u := range []uint16{0, 1, 8, 9, 10, 12, 13, 0x1f, 0x20, '"', '\\', '/', 0x7f, 0x80, 0xa0, 0xff, 0x2028, 0x2029, 0xd7ff, 0xd800, 0xdbff, 0xdc00, 0xdfff, 0xe000, 0xfeff, 0xfffd, 0xfffe, 0xffff} {
